@@ -7,7 +7,9 @@ channel send/receive, mutex-protected region, exporter call/return). Producers (
 (`processQueue` then `drainQueue`). `Shutdown` may be called by any number of goroutines: the call that wins
 `stopOnce` (`sync.Once.Do`) runs the once-body and its goroutine (labels `sdCall` … `sdReturnOk`, phases `SPhase`);
 every other call (`sdCallLate cid`) finds the once taken, blocks inside `Once.Do` until the winner's function has
-returned, and then returns nil (`sdReturnLate cid`) — pool `sds`.
+returned, and then returns nil (`sdReturnLate cid`) — pool `sds`. The winner's context may end while it waits for the
+shutdown goroutine (`sdTimeout`): the call returns ctx.Err(), `stopOnce` is done (the waiting callers return nil at
+once), and the goroutine it started goes on closing `stopCh`, joining the worker and shutting the exporter down.
 
 Ghost components (not in the Go state): `accepted`, `seen`, `droppedIds`, `exported` (the
 exporter's log, appended at ExportSpans entry), the `pre` sets of ForceFlush/Shutdown.
@@ -89,6 +91,9 @@ structure St where
   sdPre : List Nat := []         -- ghost: `seen` when Shutdown was called
   sdRetOk : Bool := false        -- the winning Shutdown call returned nil (its once-function returned: `stopOnce` is done)
   sds : List SD := []            -- the Shutdown calls that did not win `stopOnce`
+  sdRetErr : Bool := false       -- the winning Shutdown call returned ctx.Err(): its context ended while it waited for
+                                 -- the shutdown goroutine (`case <-ctx.Done()`); `stopOnce` is done, the goroutine goes on
+  sent : List Nat := []          -- ghost: the span ids in the order of their successful queue sends
 deriving Repr
 
 inductive Lbl where
@@ -113,6 +118,8 @@ inductive Lbl where
   | ffExportEndErr (fid : Nat)
   | ffCancel (fid : Nat)         -- ctx.Done wins any of ForceFlush's selects
   | sdCall | sdStore | sdClose | sdExporterShutdown | sdReturnOk   -- the Shutdown call that wins `stopOnce`
+  | sdTimeout                    -- the winning call's `select`: `case <-ctx.Done(): err = ctx.Err()` — the once-function
+                                 -- returns, Shutdown returns the context's error; the goroutine it started keeps running
   | sdCallLate (cid : Nat)       -- a Shutdown call that finds `stopOnce` taken: blocked in `Once.Do`
   | sdReturnLate (cid : Nat)     -- `Once.Do` returns after the winner's function returned: Shutdown returns nil
 deriving DecidableEq, Repr
@@ -147,7 +154,8 @@ def step (s : St) : Lbl → Option St
   | .send id =>
     if id ∈ s.inflight then
       if s.queue.length < s.cap then
-        some { s with inflight := s.inflight.erase id, queue := s.queue ++ [.span id], seen := id :: s.seen }
+        some { s with inflight := s.inflight.erase id, queue := s.queue ++ [.span id], seen := id :: s.seen,
+                      sent := s.sent ++ [id] }
       else if s.blocking then none      -- blocked on the full channel
       else some { s with inflight := s.inflight.erase id, droppedIds := id :: s.droppedIds, seen := id :: s.seen }
     else none
@@ -218,12 +226,20 @@ def step (s : St) : Lbl → Option St
   | .sdStore => if s.sd = .called then some { s with sd := .stored, stopped := true } else none
   | .sdClose => if s.sd = .stored then some { s with sd := .closed, stopClosed := true } else none
   | .sdExporterShutdown => if s.sd = .closed ∧ s.w = .exited then some { s with sd := .shut } else none
-  | .sdReturnOk => if s.sd = .shut ∧ s.sdRetOk = false then some { s with sdRetOk := true } else none
+  | .sdReturnOk =>
+    if s.sd = .shut ∧ s.sdRetOk = false ∧ s.sdRetErr = false then some { s with sdRetOk := true } else none
+  | .sdTimeout =>
+    -- the select is reached after `stopped.Store(true)` and the `go` statement; from then on the context may win it at any
+    -- moment before the call has returned (also when `wait` is closed as well: Go picks a ready case at random)
+    if (s.sd = .stored ∨ s.sd = .closed ∨ s.sd = .shut) ∧ s.sdRetOk = false ∧ s.sdRetErr = false then
+      some { s with sdRetErr := true }
+    else none
   | .sdCallLate cid =>
     if s.sd = .none ∨ s.sds.any (·.cid = cid) then none
     else some { s with sds := { cid := cid, pre := s.seen, ret := false } :: s.sds }
   | .sdReturnLate cid =>
-    if s.sdRetOk ∧ s.sds.any (fun c => c.cid = cid ∧ c.ret = false) then
+    -- `Once.Do` returns as soon as the winner's function has returned — with nil or with its context's error
+    if (s.sdRetOk ∨ s.sdRetErr) ∧ s.sds.any (fun c => c.cid = cid ∧ c.ret = false) then
       some { s with sds := s.sds.map fun c => if c.cid = cid then { c with ret := true } else c }
     else none
 
